@@ -136,3 +136,46 @@ func CompareAndSwapUint64(p *uint64, o, n uint64) bool {
 	w("atomic.CASUint64", p)
 	return atomic.CompareAndSwapUint64(p, o, n)
 }
+
+type Uintptr struct{ v atomic.Uintptr }
+
+func (x *Uintptr) Load() uintptr            { r("atomic.Uintptr.Load", x); return x.v.Load() }
+func (x *Uintptr) Store(val uintptr)        { w("atomic.Uintptr.Store", x); x.v.Store(val) }
+func (x *Uintptr) Swap(new uintptr) uintptr { w("atomic.Uintptr.Swap", x); return x.v.Swap(new) }
+func (x *Uintptr) Add(d uintptr) uintptr    { w("atomic.Uintptr.Add", x); return x.v.Add(d) }
+func (x *Uintptr) CompareAndSwap(o, n uintptr) bool {
+	w("atomic.Uintptr.CompareAndSwap", x)
+	return x.v.CompareAndSwap(o, n)
+}
+
+func (x *Int32) And(m int32) int32    { w("atomic.Int32.And", x); return x.v.And(m) }
+func (x *Int32) Or(m int32) int32     { w("atomic.Int32.Or", x); return x.v.Or(m) }
+func (x *Int64) And(m int64) int64    { w("atomic.Int64.And", x); return x.v.And(m) }
+func (x *Int64) Or(m int64) int64     { w("atomic.Int64.Or", x); return x.v.Or(m) }
+func (x *Uint32) And(m uint32) uint32 { w("atomic.Uint32.And", x); return x.v.And(m) }
+func (x *Uint32) Or(m uint32) uint32  { w("atomic.Uint32.Or", x); return x.v.Or(m) }
+func (x *Uint64) And(m uint64) uint64 { w("atomic.Uint64.And", x); return x.v.And(m) }
+func (x *Uint64) Or(m uint64) uint64  { w("atomic.Uint64.Or", x); return x.v.Or(m) }
+
+func AddUintptr(p *uintptr, d uintptr) uintptr {
+	w("atomic.AddUintptr", p)
+	return atomic.AddUintptr(p, d)
+}
+func LoadUintptr(p *uintptr) uintptr     { r("atomic.LoadUintptr", p); return atomic.LoadUintptr(p) }
+func StoreUintptr(p *uintptr, v uintptr) { w("atomic.StoreUintptr", p); atomic.StoreUintptr(p, v) }
+func SwapUintptr(p *uintptr, v uintptr) uintptr {
+	w("atomic.SwapUintptr", p)
+	return atomic.SwapUintptr(p, v)
+}
+func CompareAndSwapUintptr(p *uintptr, o, n uintptr) bool {
+	w("atomic.CompareAndSwapUintptr", p)
+	return atomic.CompareAndSwapUintptr(p, o, n)
+}
+func SwapPointer(p *unsafe.Pointer, v unsafe.Pointer) unsafe.Pointer {
+	w("atomic.SwapPointer", p)
+	return atomic.SwapPointer(p, v)
+}
+func CompareAndSwapPointer(p *unsafe.Pointer, o, n unsafe.Pointer) bool {
+	w("atomic.CompareAndSwapPointer", p)
+	return atomic.CompareAndSwapPointer(p, o, n)
+}
